@@ -81,6 +81,29 @@ func (a *AST) Link(node pipeline.Node, function ast.Node) {
 
 // Create converts a pipeline Node to a function
 func (a *AST) Create(n pipeline.Node, parents []ast.Node) (ast.Node, error) {
+	function, err := a.create(n, parents)
+	if err != nil || function == nil {
+		return function, err
+	}
+	// Every node has the quiet property; the eval builder places it itself.
+	if _, isEval := n.(*pipeline.EvalNode); n.IsQuiet() && !isEval {
+		function = withQuiet(function)
+	}
+	return function, nil
+}
+
+// withQuiet adds the quiet property directly behind the function of the node,
+// in front of its other properties: a property that follows one which returns
+// an object, such as an alert handler, would be looked up on that object first.
+func withQuiet(function ast.Node) ast.Node {
+	if chain, ok := function.(*ast.ChainNode); ok && chain.Operator == ast.TokenDot {
+		chain.Left = withQuiet(chain.Left)
+		return chain
+	}
+	return Dot(function, &ast.FunctionNode{Func: "quiet"})
+}
+
+func (a *AST) create(n pipeline.Node, parents []ast.Node) (ast.Node, error) {
 	switch node := n.(type) {
 	case *pipeline.UnionNode:
 		return NewUnion(parents).Build(node)
